@@ -11,9 +11,12 @@ def Live (g : G) : Prop := g.stopped = false ∧ g.done = false ∧ g.panic = fa
 
 theorem live_init : Live ({} : G) := ⟨rfl, rfl, rfl⟩
 
-theorem yield_none (g : G) (cb : Cb) (h : g.stopped = false) :
-    g.yield none cb = ({ g with cbs := g.cbs ++ [cb] }, true) := by
-  simp [G.yield, h]
+theorem yieldOk_none (g : G) (h : g.stopped = false) : g.yieldOk none = true := by
+  simp [G.yieldOk, h]
+
+theorem yielded_none (g : G) (cb : Cb) (h : g.stopped = false) :
+    g.yielded none cb = { g with cbs := g.cbs ++ [cb] } := by
+  simp [G.yielded, h]
 
 /-- normal form of one step for a consumer that never stops -/
 theorem step_read_live (g : G) (hl : Live g) (nl : Bool) (line o l : Nat) (err ins : Bool) :
@@ -26,15 +29,7 @@ theorem step_read_live (g : G) (hl : Live g) (nl : Bool) (line o l : Nat) (err i
         else { g with lastLine := line }
       else g := by
   obtain ⟨h1, h2, h3⟩ := hl
-  simp only [step, h2, h3, Bool.or_self, Bool.false_eq_true, if_false]
-  split
-  · split
-    · rw [yield_none g _ h1]
-    · split
-      · rw [yield_none g _ h1]
-      · rfl
-  · rfl
-  done
+  simp [step, readTail, stmtTail, G.yieldOk, G.yielded, h1, h2, h3]
 
 theorem step_stmt_live (g : G) (hl : Live g) (id : Option Nat) (err tn : Bool) (line o l : Nat) :
     step none g (.stmt id err tn line o l) =
@@ -46,14 +41,7 @@ theorem step_stmt_live (g : G) (hl : Live g) (id : Option Nat) (err tn : Bool) (
                  cbs := g.cbs ++ [{ stmts := g.acc ++ [id], inc := incomplete o l, err := false, fromRead := false, inStmt := false }] }
       else { g with acc := g.acc ++ [id] } := by
   obtain ⟨h1, h2, h3⟩ := hl
-  simp only [step, h2, h3, Bool.or_self, Bool.false_eq_true, if_false]
-  split
-  · rw [yield_none _ _ (by simpa using h1)]
-    simp [h3]
-  · split
-    · rw [yield_none _ _ (by simpa using h1)]
-      simp [h3]
-    · rfl
+  simp [step, readTail, stmtTail, G.yieldOk, G.yielded, h1, h2, h3]
 
 theorem step_live (g : G) (hl : Live g) (e : Ev) : Live (step none g e) := by
   cases e with
@@ -270,97 +258,353 @@ theorem checkA1_append (last : Option Bool) (a b : List Ev) :
 
 /-! ### Incomplete only at blocked reads inside a statement -/
 
-theorem yield_cbs (g : G) (st : Option Nat) (cb : Cb) :
-    (g.yield st cb).1.cbs = g.cbs ∨ (g.yield st cb).1.cbs = g.cbs ++ [cb] := by
-  unfold G.yield
+theorem yielded_cbs (g : G) (st : Option Nat) (cb : Cb) :
+    (g.yielded st cb).cbs = g.cbs ∨ (g.yielded st cb).cbs = g.cbs ++ [cb] := by
+  unfold G.yielded
   split
   · left; rfl
-  · split
-    · right; rfl
-    · right; rfl
+  · right; rfl
+
+/-- what a step may add to the callback list -/
+def cbOfEvent (e : Ev) (cb : Cb) : Prop :=
+  match e with
+  | .read nl _ o l _ ins => nl = true ∧ cb.fromRead = true ∧ cb.inStmt = ins ∧ (cb.inc = true → incomplete o l = true)
+  | .stmt _ _ _ _ o l => cb.fromRead = false ∧ cb.inc = incomplete o l
 
 /-- each step adds at most one callback, and says which -/
 theorem step_cbs (st : Option Nat) (g : G) (e : Ev) :
-    (step st g e).cbs = g.cbs ∨
-    ∃ cb, (step st g e).cbs = g.cbs ++ [cb] ∧
-      match e with
-      | .read nl _ o l _ ins =>
-        nl = true ∧ cb.fromRead = true ∧ cb.inStmt = ins ∧ cb.inc = incomplete o l
-      | .stmt _ _ _ _ o l => cb.fromRead = false ∧ cb.inc = incomplete o l := by
+    (step st g e).cbs = g.cbs ∨ ∃ cb, (step st g e).cbs = g.cbs ++ [cb] ∧ cbOfEvent e cb := by
   cases e with
   | read nl line o l err ins =>
-    simp only [step]
+    simp only [step, readTail]
     split
     · left; rfl
     · split
       · rename_i hc
-        have hnl : nl = true := by simp at hc; exact hc.1
+        have hnl : nl = true := by
+          cases nl
+          · simp at hc
+          · rfl
         split
         · rename_i hi
-          rcases yield_cbs g st { stmts := g.acc, inc := true, err := err, fromRead := true, inStmt := ins } with h | h
-          · left
-            generalize hy : g.yield st _ = y at h ⊢
-            obtain ⟨g', ok⟩ := y
-            simp only at h ⊢
-            split <;> simpa using h
+          rcases yielded_cbs g st { stmts := g.acc, inc := true, err := err, fromRead := true, inStmt := ins } with h | h
+          · left; split <;> simpa using h
           · right
-            refine ⟨_, ?_, hnl, rfl, rfl, by simp [hi]⟩
-            generalize hy : g.yield st _ = y at h ⊢
-            obtain ⟨g', ok⟩ := y
-            simp only at h ⊢
+            refine ⟨{ stmts := g.acc, inc := true, err := err, fromRead := true, inStmt := ins }, ?_, hnl, rfl, rfl, fun _ => hi⟩
             split <;> simpa using h
-        · rename_i hi
-          split
-          · rcases yield_cbs g st { stmts := [], inc := false, err := err, fromRead := true, inStmt := ins } with h | h
-            · left
-              generalize hy : g.yield st _ = y at h ⊢
-              obtain ⟨g', ok⟩ := y
-              simp only at h ⊢
-              split <;> simpa using h
+        · split
+          · rcases yielded_cbs g st { stmts := [], inc := false, err := err, fromRead := true, inStmt := ins } with h | h
+            · left; split <;> simpa using h
             · right
-              refine ⟨_, ?_, hnl, rfl, rfl, by simp at hi; simp [hi]⟩
-              generalize hy : g.yield st _ = y at h ⊢
-              obtain ⟨g', ok⟩ := y
-              simp only at h ⊢
+              refine ⟨{ stmts := [], inc := false, err := err, fromRead := true, inStmt := ins }, ?_, hnl, rfl, rfl, fun hh => by simp at hh⟩
               split <;> simpa using h
           · left; rfl
       · left; rfl
   | stmt id err tn line o l =>
-    simp only [step]
+    simp only [step, stmtTail]
     split
     · left; rfl
     · split
-      · rcases yield_cbs { g with acc := g.acc ++ [id] } st
+      · rcases yielded_cbs { g with acc := g.acc ++ [id] } st
           { stmts := g.acc ++ [id], inc := incomplete o l, err := true, fromRead := false, inStmt := false } with h | h
-        · left
-          generalize hy : G.yield _ st _ = y at h ⊢
-          obtain ⟨g', ok⟩ := y
-          simp only at h ⊢
-          repeat' split
-          all_goals simpa using h
+        · left; split <;> simpa using h
         · right
-          refine ⟨_, ?_, rfl, rfl⟩
-          generalize hy : G.yield _ st _ = y at h ⊢
-          obtain ⟨g', ok⟩ := y
-          simp only at h ⊢
-          repeat' split
-          all_goals simpa using h
+          refine ⟨{ stmts := g.acc ++ [id], inc := incomplete o l, err := true, fromRead := false, inStmt := false }, ?_, rfl, rfl⟩
+          split <;> simpa using h
       · split
-        · rcases yield_cbs { g with acc := g.acc ++ [id] } st
+        · rcases yielded_cbs { g with acc := g.acc ++ [id] } st
             { stmts := g.acc ++ [id], inc := incomplete o l, err := false, fromRead := false, inStmt := false } with h | h
-          · left
-            generalize hy : G.yield _ st _ = y at h ⊢
-            obtain ⟨g', ok⟩ := y
-            simp only at h ⊢
-            repeat' split
+          · left; repeat' split
             all_goals simpa using h
           · right
-            refine ⟨_, ?_, rfl, rfl⟩
-            generalize hy : G.yield _ st _ = y at h ⊢
-            obtain ⟨g', ok⟩ := y
-            simp only at h ⊢
+            refine ⟨{ stmts := g.acc ++ [id], inc := incomplete o l, err := false, fromRead := false, inStmt := false }, ?_, rfl, rfl⟩
             repeat' split
             all_goals simpa using h
         · left; rfl
+
+/-- invariant: every callback that reports Incomplete comes from a blocked read inside a statement -/
+def IncOk (g : G) : Prop := ∀ cb ∈ g.cbs, cb.inc = true → cb.fromRead = true ∧ cb.inStmt = true
+
+theorem step_incOk (st : Option Nat) (g : G) (e : Ev) (hg : IncOk g)
+    (h0 : checkA0 [e] = true) (h2 : checkA2 [e] = true) : IncOk (step st g e) := by
+  rcases step_cbs st g e with h | ⟨cb, h, hcb⟩
+  · intro c hc; rw [h] at hc; exact hg c hc
+  · intro c hc
+    rw [h] at hc
+    simp only [List.mem_append, List.mem_singleton] at hc
+    rcases hc with hc | hc
+    · exact hg c hc
+    · subst hc
+      intro hinc
+      cases e with
+      | read nl line o l err ins =>
+        obtain ⟨hnl, hfr, hins, hi⟩ := hcb
+        subst hnl
+        refine ⟨hfr, ?_⟩
+        rw [hins]
+        have := hi hinc
+        simp only [checkA2, List.all_cons, List.all_nil, Bool.and_true] at h2
+        simp [this] at h2
+        exact h2
+      | stmt id err tn line o l =>
+        obtain ⟨_, hi⟩ := hcb
+        simp only [checkA0, List.all_cons, List.all_nil, Bool.and_true, Bool.and_eq_true, beq_iff_eq] at h0
+        rw [hi, h0.1, h0.2] at hinc
+        simp [incomplete] at hinc
+
+theorem runFrom_incOk (st : Option Nat) (tr : List Ev) (g : G) (hg : IncOk g)
+    (h0 : A0 tr) (h2 : A2 tr) : IncOk (runFrom st g tr) := by
+  induction tr generalizing g with
+  | nil => exact hg
+  | cons e tr ih =>
+    rw [runFrom_cons]
+    have h0' : checkA0 [e] = true ∧ A0 tr := by
+      simp only [A0, checkA0, List.all_cons, Bool.and_eq_true] at h0
+      exact ⟨by simp [checkA0, h0.1], h0.2⟩
+    have h2' : checkA2 [e] = true ∧ A2 tr := by
+      simp only [A2, checkA2, List.all_cons, Bool.and_eq_true] at h2
+      exact ⟨by simp [checkA2, h2.1], h2.2⟩
+    exact ih _ (step_incOk st g e hg h0'.1 h2'.1) h0'.2 h2'.2
+
+/-! ### stopping -/
+
+/-- invariant for a consumer that stops at its k-th call -/
+def StopOk (k : Nat) (g : G) : Prop :=
+  (g.panic = true → g.stopped = true ∧ g.done = false) ∧
+  (g.stopped = true → g.done = false → ∃ cb, g.cbs[k]? = some cb ∧ cb.fromRead = true) ∧
+  (g.stopped = false → g.cbs.length ≤ k)
+
+theorem stopOk_init (k : Nat) : StopOk k ({} : G) := by
+  refine ⟨?_, ?_, ?_⟩ <;> simp
+
+theorem getElem?_append_length {α} (l : List α) (a : α) : (l ++ [a])[l.length]? = some a := by
+  simp
+
+theorem getElem?_append_lt {α} (l : List α) (a : α) (k : Nat) (x : α) (h : l[k]? = some x) :
+    (l ++ [a])[k]? = some x := by
+  have hk : k < l.length := by
+    rcases Nat.lt_or_ge k l.length with h' | h'
+    · exact h'
+    · simp [List.getElem?_eq_none h'] at h
+  rw [List.getElem?_append_left hk]; exact h
+
+/-- a callback made by wrappedReader.Read (`fr = true`) or by the loop (`fr = false`) for a consumer
+    stopping at call k -/
+theorem yielded_stopOk (k : Nat) (g : G) (cb : Cb) (h : StopOk k g) (hd : g.done = false) (hp : g.panic = false) :
+    let g' := g.yielded (some k) cb
+    g'.done = false ∧
+    (g'.panic = true → g'.stopped = true) ∧
+    (g'.stopped = true → g'.panic = false → g.yieldOk (some k) = false ∧ g'.cbs[k]? = some cb) ∧
+    (g'.stopped = true → g'.panic = true → ∃ c, g'.cbs[k]? = some c ∧ c.fromRead = true) ∧
+    (g'.stopped = false → g.yieldOk (some k) = true ∧ g'.panic = false ∧ g'.cbs.length ≤ k) := by
+  obtain ⟨h1, h2, h3⟩ := h
+  by_cases hs : g.stopped = true
+  · have := h2 hs hd
+    simp [G.yielded, G.yieldOk, hs, hd, this]
+  · have hs' : g.stopped = false := by simpa using hs
+    have hlen := h3 hs'
+    by_cases hk : g.cbs.length = k
+    · subst hk
+      simp [G.yielded, G.yieldOk, hs', hd, hp]
+    · have : g.cbs.length < k := by omega
+      simp [G.yielded, G.yieldOk, hs', hd, hp, Ne.symm hk]
+      omega
+
+theorem readTail_stopOk (k : Nat) (g : G) (nl : Bool) (line o l : Nat) (err ins : Bool)
+    (h : StopOk k g) (hd : g.done = false) (hp : g.panic = false) :
+    StopOk k (readTail (some k) g nl line o l err ins) := by
+  have key : ∀ cb : Cb, cb.fromRead = true →
+      StopOk k (if g.yieldOk (some k) then { g.yielded (some k) cb with lastLine := line } else g.yielded (some k) cb) := by
+    intro cb hfr
+    obtain ⟨y1, y2, y3, y4, y5⟩ := yielded_stopOk k g cb h hd hp
+    have core : StopOk k (g.yielded (some k) cb) := by
+      refine ⟨fun hpan => ⟨y2 hpan, y1⟩, ?_, fun hst => (y5 hst).2.2⟩
+      intro hst _
+      cases hpn : (g.yielded (some k) cb).panic
+      · exact ⟨cb, (y3 hst hpn).2, hfr⟩
+      · exact y4 hst hpn
+    split
+    · exact core
+    · exact core
+  unfold readTail
+  split
+  · split
+    · exact key _ rfl
+    · split
+      · exact key _ rfl
+      · exact h
+  · exact h
+
+theorem stmtTail_stopOk (k : Nat) (g : G) (err tn : Bool) (line o l : Nat)
+    (h : StopOk k g) (hd : g.done = false) (hp : g.panic = false) :
+    StopOk k (stmtTail (some k) g err tn line o l) := by
+  have key : ∀ cb : Cb,
+      let g' := g.yielded (some k) cb
+      (g'.panic = true → StopOk k g') ∧
+      (g'.panic = false → g.yieldOk (some k) = true → g'.stopped = false ∧ g'.cbs.length ≤ k) ∧
+      (g'.panic = false → g.yieldOk (some k) = false → True) := by
+    intro cb
+    obtain ⟨y1, y2, y3, y4, y5⟩ := yielded_stopOk k g cb h hd hp
+    refine ⟨?_, ?_, fun _ _ => trivial⟩
+    · intro hpan
+      exact ⟨fun _ => ⟨y2 hpan, y1⟩, fun hst _ => y4 hst hpan, fun hst => (y5 hst).2.2⟩
+    · intro hpan hok
+      cases hst : (g.yielded (some k) cb).stopped
+      · exact ⟨rfl, (y5 hst).2.2⟩
+      · have := (y3 hst hpan).1; simp [this] at hok
+  unfold stmtTail
+  split
+  · obtain ⟨k1, k2, _⟩ := key { stmts := g.acc, inc := incomplete o l, err := true, fromRead := false, inStmt := false }
+    split
+    · rename_i hc
+      cases hpn : (g.yielded (some k) { stmts := g.acc, inc := incomplete o l, err := true, fromRead := false, inStmt := false }).panic
+      · have hok : g.yieldOk (some k) = true := by simpa [hpn] using hc
+        obtain ⟨hs, hl⟩ := k2 hpn hok
+        exact ⟨fun hh => by simp [hpn] at hh, fun hh => by simp [hs] at hh, fun _ => hl⟩
+      · exact k1 hpn
+    · rename_i hc
+      simp only [Bool.or_eq_true, not_or, Bool.not_eq_true] at hc
+      refine ⟨fun hh => by simp [hc.1] at hh, fun _ hdn => by simp at hdn, ?_⟩
+      intro hst
+      obtain ⟨_, _, _, _, y5⟩ := yielded_stopOk k g
+        { stmts := g.acc, inc := incomplete o l, err := true, fromRead := false, inStmt := false } h hd hp
+      have := (y5 hst).1; simp [this] at hc
+  · split
+    · obtain ⟨k1, k2, _⟩ := key { stmts := g.acc, inc := incomplete o l, err := false, fromRead := false, inStmt := false }
+      split
+      · rename_i hpan; exact k1 hpan
+      · rename_i hpan
+        have hpn : (g.yielded (some k) { stmts := g.acc, inc := incomplete o l, err := false, fromRead := false, inStmt := false }).panic = false := by
+          simpa using hpan
+        split
+        · rename_i hok
+          obtain ⟨hs, hl⟩ := k2 hpn hok
+          exact ⟨fun hh => by simp [hpn] at hh, fun hh => by simp [hs] at hh, fun _ => hl⟩
+        · rename_i hok
+          refine ⟨fun hh => by simp [hpn] at hh, fun _ hdn => by simp at hdn, ?_⟩
+          intro hst
+          obtain ⟨_, _, _, _, y5⟩ := yielded_stopOk k g
+            { stmts := g.acc, inc := incomplete o l, err := false, fromRead := false, inStmt := false } h hd hp
+          have := (y5 hst).1; simp [this] at hok
+    · exact h
+
+theorem step_stopOk (k : Nat) (g : G) (e : Ev) (h : StopOk k g) : StopOk k (step (some k) g e) := by
+  by_cases hdp : (g.done || g.panic) = true
+  · cases e <;> simpa [step, hdp] using h
+  · have hd : g.done = false := by
+      cases hh : g.done <;> simp [hh] at hdp ⊢
+    have hp : g.panic = false := by
+      cases hh : g.panic <;> simp [hh] at hdp ⊢
+    cases e with
+    | read nl line o l err ins =>
+      simp only [step, hdp, if_false]
+      exact readTail_stopOk k g nl line o l err ins h hd hp
+    | stmt id err tn line o l =>
+      simp only [step, hdp, if_false]
+      exact stmtTail_stopOk k _ err tn line o l h hd hp
+
+theorem runFrom_stopOk (k : Nat) (tr : List Ev) (g : G) (h : StopOk k g) : StopOk k (runFrom (some k) g tr) := by
+  induction tr generalizing g with
+  | nil => exact h
+  | cons e tr ih => rw [runFrom_cons]; exact ih _ (step_stopOk k g e h)
+
+/-! ## the statement loop -/
+
+theorem loop_true_not_stopped (steps : List Step) (k : Nat) :
+    (stmtsLoop (fun _ => true) steps k).stopped = false := by
+  induction steps generalizing k with
+  | nil => rfl
+  | cons s rest ih =>
+    simp only [stmtsLoop]
+    split
+    · rfl
+    · simp only [Bool.not_true, Bool.false_eq_true, if_false]
+      split
+      · rfl
+      · exact ih (k + 1)
+
+/-- a yield carries an error only if the loop ends with an error -/
+theorem loop_err_of_yield (cont : Nat → Bool) (steps : List Step) (k : Nat) :
+    (stmtsLoop cont steps k).yields.any (·.err) = true → (stmtsLoop cont steps k).err = true := by
+  induction steps generalizing k with
+  | nil => simp [stmtsLoop]
+  | cons s rest ih =>
+    simp only [stmtsLoop]
+    split
+    · simp
+    · split
+      · simp
+      · split
+        · simp
+        · rename_i herr
+          have herr' : s.err = false := by simpa using herr
+          intro h
+          simp only [List.any_cons, herr', Bool.false_or] at h
+          exact ih (k + 1) h
+
+/-- a consumer that stops at its j-th call from here sees at most j+1 yields, and fewer if the loop
+    ends before -/
+theorem loop_stop_bound (cont : Nat → Bool) (steps : List Step) (k j : Nat) (hc : cont (k + j) = false) :
+    ((stmtsLoop cont steps k).stopped = true → (stmtsLoop cont steps k).yields.length ≤ j + 1) ∧
+    ((stmtsLoop cont steps k).stopped = false → (stmtsLoop cont steps k).yields.length ≤ j) := by
+  induction steps generalizing k j with
+  | nil => simp [stmtsLoop]
+  | cons s rest ih =>
+    simp only [stmtsLoop]
+    split
+    · simp
+    · split
+      · simp
+      · rename_i hck
+        have hck' : cont k = true := by simpa using hck
+        have hj : j ≠ 0 := by
+          intro h0; subst h0; simp [hck'] at hc
+        obtain ⟨j', rfl⟩ : ∃ j', j = j' + 1 := ⟨j - 1, by omega⟩
+        split
+        · simp
+        · have := ih (k + 1) j' (by rw [← hc]; congr 1; omega)
+          simp only [List.length_cons]
+          exact ⟨fun h => by have := this.1 h; omega, fun h => by have := this.2 h; omega⟩
+
+/-- the yields of a stopping consumer are a prefix of those of a consumer that never stops -/
+theorem loop_prefix (cont : Nat → Bool) (steps : List Step) (k : Nat) :
+    (stmtsLoop cont steps k).yields <+: (stmtsLoop (fun _ => true) steps k).yields ∧
+    ((stmtsLoop cont steps k).stopped = false →
+      stmtsLoop cont steps k = stmtsLoop (fun _ => true) steps k) := by
+  induction steps generalizing k with
+  | nil => simp [stmtsLoop]
+  | cons s rest ih =>
+    simp only [stmtsLoop]
+    split
+    · simp
+    · simp only [Bool.not_true, Bool.false_eq_true, if_false]
+      split
+      · split
+        · simp
+        · refine ⟨?_, by simp⟩
+          simp only [List.cons_prefix_cons, true_and]
+          exact List.nil_prefix
+      · split
+        · simp
+        · obtain ⟨h1, h2⟩ := ih (k + 1)
+          refine ⟨?_, ?_⟩
+          · simp only [List.cons_prefix_cons, true_and]; exact h1
+          · intro hs
+            have := h2 hs
+            rw [this]
+
+/-! ## reset tables: what `fieldOk` means -/
+
+theorem rhsValue_congr (consts : List (String × String)) (s1 s2 : String → Option String) (f rhs : String)
+    (h : ∀ g, negatedField rhs = some g → s1 g = s2 g) :
+    rhsValue consts s1 f rhs = rhsValue consts s2 f rhs := by
+  unfold rhsValue
+  split
+  · rfl
+  · split
+    · rfl
+    · cases hn : negatedField rhs with
+      | none => rfl
+      | some g => simp only [h g hn]
 
 end ShVerif.C08
